@@ -1374,7 +1374,12 @@ impl Relation {
                     vec![SyntaxNode::new_root_mut(builder.finish()).into()],
                 );
             } else {
-                let name_node = self.0.children_with_tokens().find(|n| n.kind() == IDENT);
+                // the version follows the name and its architecture qualifier, if any
+                let name_node = self
+                    .0
+                    .children_with_tokens()
+                    .find(|n| n.kind() == ARCHQUAL)
+                    .or_else(|| self.0.children_with_tokens().find(|n| n.kind() == IDENT));
                 let idx = if let Some(name_node) = name_node {
                     name_node.index() + 1
                 } else {
